@@ -19,7 +19,6 @@ import (
 	"math"
 	"math/rand/v2"
 	"net/netip"
-	"reflect"
 	"testing"
 	"time"
 
@@ -537,12 +536,12 @@ func c19EqBody(a, b Body) string {
 		}
 	case *BGP4MPStateChange:
 		y, ok := b.(*BGP4MPStateChange)
-		if !ok || !reflect.DeepEqual(x, y) {
+		if !ok || !gen.DeepEqual(x, y) {
 			return "state change"
 		}
 	case *BGP4MPMessage:
 		y, ok := b.(*BGP4MPMessage)
-		if !ok || !reflect.DeepEqual(x.BGP4MPHeader, y.BGP4MPHeader) {
+		if !ok || !gen.DeepEqual(x.BGP4MPHeader, y.BGP4MPHeader) {
 			return "BGP4MP header"
 		}
 		if x.isLocal != y.isLocal || x.isAddPath != y.isAddPath {
@@ -553,7 +552,7 @@ func c19EqBody(a, b Body) string {
 			if err != nil || !bytes.Equal(yb, x.BGPMessagePayload) {
 				return "BGP message vs payload"
 			}
-		} else if !reflect.DeepEqual(x.BGPMessage, y.BGPMessage) {
+		} else if !gen.DeepEqual(x.BGPMessage, y.BGPMessage) {
 			return "BGP message"
 		}
 	default:
@@ -573,7 +572,7 @@ func c19Same(a, b *MRTMessage) bool {
 	if _, ok := a.Body.(*GeoPeerTable); ok { // floats may be NaN
 		return c19EqBody(a.Body, b.Body) == ""
 	}
-	return reflect.DeepEqual(a.Body, b.Body)
+	return gen.DeepEqual(a.Body, b.Body)
 }
 
 func c19Show(m *MRTMessage, err error) string {
@@ -711,7 +710,7 @@ func c19Hostile(rec *vlib.Rec, w *gen.C19Watch, r *rand.Rand, idx int) {
 		var ea, eb error
 		pa := rec.Guard("c19:mrt:ParseHeader", wit, func() { ha, ea = ParseHeader(gen.C19Slack(in, 0xAA, 32)) })
 		pb := rec.Guard("c19:mrt:ParseHeader", wit, func() { hb, eb = ParseHeader(gen.C19Slack(in, 0x55, 32)) })
-		if !pa && !pb && (fmt.Sprint(ea) != fmt.Sprint(eb) || !reflect.DeepEqual(ha, hb) || fmt.Sprint(ea) != fmt.Sprint(herr) || !reflect.DeepEqual(ha, h)) {
+		if !pa && !pb && (fmt.Sprint(ea) != fmt.Sprint(eb) || !gen.DeepEqual(ha, hb) || fmt.Sprint(ea) != fmt.Sprint(herr) || !gen.DeepEqual(ha, h)) {
 			rec.Violation("c19:mrt:ParseHeader:over-read", "result depends on bytes beyond len(data)", wit())
 		}
 		if herr == nil && h != nil {
@@ -783,7 +782,7 @@ func c19Hostile(rec *vlib.Rec, w *gen.C19Watch, r *rand.Rand, idx int) {
 		rec.Nontrivial("mrt|" + d.name + "|" + gen.C19ErrClass(err))
 		pa := rec.Guard("c19:mrt:"+d.name, dw, func() { va, ea = d.call(gen.C19Slack(body, 0xAA, 64)) })
 		pb := rec.Guard("c19:mrt:"+d.name, dw, func() { vb, eb = d.call(gen.C19Slack(body, 0x55, 64)) })
-		if !pa && !pb && (gen.C19ErrClass(ea) != gen.C19ErrClass(eb) || gen.C19ErrClass(ea) != gen.C19ErrClass(err) || (ea == nil && (!reflect.DeepEqual(va, vb) || !reflect.DeepEqual(va, v)))) {
+		if !pa && !pb && (gen.C19ErrClass(ea) != gen.C19ErrClass(eb) || gen.C19ErrClass(ea) != gen.C19ErrClass(err) || (ea == nil && (!gen.DeepEqual(va, vb) || !gen.DeepEqual(va, v)))) {
 			rec.Violation("c19:mrt:"+d.name+":over-read", "result depends on bytes beyond len(data)", dw())
 		}
 	}
